@@ -30,7 +30,7 @@ ASSUMPTIONS = [
 ]
 
 ALPHA = {
-    'build': 8, 'repeat': 5, 'churn': 3, 'compare_all': 4, 'var': 2, 'cube': 2, 'funcop': 8, 'apply': 3, 'not': 1,
+    'build': 8, 'repeat': 5, 'file_roundtrip': 2, 'churn': 3, 'compare_all': 4, 'var': 2, 'cube': 2, 'funcop': 8, 'apply': 3, 'not': 1,
     'ite': 2, 'quantify': 2, 'let_const': 1, 'let_rename': 1,
     'let_compose': 2, 'add_expr': 2, 'to_expr': 1, 'queries': 1,
     'traverse': 4, 'copy_handle': 3, 'drop': 10, 'gc': 5, 'sift': 3,
